@@ -225,20 +225,31 @@ Proof. exact choice_depends_on_algorithm. Qed.
 Print Assumptions C18_choice_depends_on_sort_algorithm.
 
 (* ---------------- the caller's label objects ---------------- *)
-(* FULL STATEMENT (each port carries ITS label values, the caller's arguments are not modified):
-     gen_component_seen ... = gen_component ...   for all accepted arguments.
-   FALSE of the code: labels are attached and stamped without copying (component_catalog.py:150-158). *)
-Theorem C18_shared_label_refuted :
+(* The code attaches a COPY of every caller-supplied Labels object before stamping local_name (fix 356ad86; the
+   translator reads how the object is attached from the source: Gen.Catalog.stamps_caller_labels). *)
+Theorem C18_labels_are_copied : stamps_caller_labels = false.
+Proof. exact labels_are_copied. Qed.
+Print Assumptions C18_labels_are_copied.
+
+(* Hence, for ALL arguments -- label objects shared between ports included --: what the caller sees when the call returns
+   is gen_component's result (each port carries ITS local_name, C18_component), and no label object handed over is modified *)
+Theorem C18_caller_sees_gen_component : forall cat name s nsid ids labs parent,
+  gen_component_seen cat name s nsid ids labs parent = gen_component cat name s nsid ids labs parent /\
+  caller_labels_after cat name s nsid ids labs parent = match labs with Some l => map (fun _ => None) l | None => [] end.
+Proof. exact caller_sees_gen_component. Qed.
+Print Assumptions C18_caller_sees_gen_component.
+
+(* why the copy matters (the behaviour before the fix, kept as the model's other branch: the check follows either tree) *)
+Theorem C18_stamping_would_alias :
   let e : comp_entry := (S"M", [], S"SmartNIC", S"d", Some [(S"p1", 100); (S"p2", 100)]) in
   let lb := {| lab_bdf := BNone; lab_tag := 0%N |} in
-  exists c ns i, gen_component_seen [e] (S"n1") (ByTypeModel (Some (S"SmartNIC")) (Some (S"M"))) None None (Some [lb; lb]) None = Ok c /\
+  exists c ns i, gen_component_seen_with true [e] (S"n1") (ByTypeModel (Some (S"SmartNIC")) (Some (S"M"))) None None (Some [lb; lb]) None = Ok c /\
     c_ns c = Some ns /\ nth_error (ns_ifs ns) 0 = Some i /\ if_name i = S"n1-p1" /\ if_local i = LStr (S"p2").
-Proof. exact shared_label_refuted. Qed.
-Print Assumptions C18_shared_label_refuted.
+Proof. exact stamping_would_alias. Qed.
+Print Assumptions C18_stamping_would_alias.
 
-(* partial: with pairwise distinct label objects (exactly the defect's signature excluded) the component the caller sees
-   is gen_component's, so C18_component describes it *)
-Theorem C18_distinct_labels_partial : forall cat e name nsid ids labs parent,
+(* whichever way labels are attached: with pairwise distinct label objects the caller sees gen_component's result *)
+Theorem C18_distinct_labels : forall cat e name nsid ids labs parent,
   find_entry cat (e_model e) (e_type e) = Some e ->
   type_from_str (e_type e) = Some (e_type e) ->
   entry_args_wf e ids labs = true ->
@@ -247,7 +258,7 @@ Theorem C18_distinct_labels_partial : forall cat e name nsid ids labs parent,
   gen_component_seen cat name (ByTypeModel (Some (e_type e)) (Some (e_model e))) nsid ids labs parent
   = gen_component cat name (ByTypeModel (Some (e_type e)) (Some (e_model e))) nsid ids labs parent.
 Proof. exact seen_is_gen_component_when_distinct. Qed.
-Print Assumptions C18_distinct_labels_partial.
+Print Assumptions C18_distinct_labels.
 
 (* ---------------- non-vacuity ---------------- *)
 (* some request has candidates and some has none; the cell list is not trivial; class_ok is not constantly true *)
